@@ -44,13 +44,18 @@ impl Runner {
     fn new() -> Self { Runner { rt: runtime(), sessions: 0, nontrivial: HashSet::new(), min_offered: usize::MAX, max_offered: 0 } }
     /// run one scripted session on both implementations, check the oracle, emit model cases
     fn session(&mut self, prop: &str, fr: &Frames, idx: &RepIndex, verify: bool, evs: &[REv], st: &mut Stats, out: &mut Out, corr: bool) {
+        self.session_ws(prop, fr, idx, verify, evs, &[], st, out, corr)
+    }
+    /// ws: readiness script of the write half (accept k bytes / not ready); the outgoing bytes are collected per read(), so a
+    /// reply that is not complete when its keep-alive is returned shows up as a short or missing W token
+    fn session_ws(&mut self, prop: &str, fr: &Frames, idx: &RepIndex, verify: bool, evs: &[REv], ws: &[WEv], st: &mut Stats, out: &mut Out, corr: bool) {
         let line = format!("session {} {} {} | {}", mode_tag(fr.compressed), verify as u8, fr.table(), evs.iter().map(ev_tag).collect::<Vec<_>>().join(" "));
         let max_reads = fr.frames.len() + evs.len() + 8;
         for imp in ["B", "A"] {
-            let (trace, off) = if imp == "B" { session_blocking(fr, idx, verify, evs, &[], max_reads) } else { session_async(&self.rt, fr, idx, verify, evs, &[], max_reads) };
+            let (trace, off) = if imp == "B" { session_blocking(fr, idx, verify, evs, ws, max_reads) } else { session_async(&self.rt, fr, idx, verify, evs, ws, max_reads) };
             for o in &off { self.min_offered = self.min_offered.min(*o); self.max_offered = self.max_offered.max(*o); }
             st.evaluations += 1; self.sessions += 1;
-            if let Some(w) = session_oracle(fr, verify, evs, &trace) { st.fail(format!("[{prop} {}] {w}", if imp == "B" { "blocking" } else { "tokio" }), format!("{imp} {line}")); }
+            if let Some(w) = session_oracle(fr, verify, evs, &trace) { st.fail(format!("[{prop} {}] {w}{}", if imp == "B" { "blocking" } else { "tokio" }, if ws.is_empty() { String::new() } else { format!(" (write half: {})", ws.iter().map(wtag).collect::<Vec<_>>().join(" ")) }), format!("{imp} {line}{}", if ws.is_empty() { String::new() } else { format!(" || {}", ws.iter().map(wtag).collect::<Vec<_>>().join(" ")) })); }
             // the model does not distinguish the two implementations: blocking read timeouts surface as TO as well
             if corr { out.case(&line, &trace.join(" ")); }
         }
@@ -69,10 +74,12 @@ pub fn replay_session(prop: &str, r: &str) -> i32 {
     let imp = toks[0]; let compressed = toks[2] == "C"; let verify = toks[3] == "1";
     let bar = toks.iter().position(|t| *t == "|").unwrap();
     let frames: Vec<Vec<u8>> = toks[4..bar].iter().map(|t| { let p: Vec<&str> = t.split(':').collect(); let body = unhex(p[1]); let mut f = vec![size_byte(compressed, body.len() + 1)]; f.extend(body); f }).collect();
-    let evs: Vec<REv> = toks[bar + 1..].iter().map(|t| parse_ev(t)).collect();
+    let bar2 = toks.iter().position(|t| *t == "||").unwrap_or(toks.len());
+    let evs: Vec<REv> = toks[bar + 1..bar2].iter().map(|t| parse_ev(t)).collect();
+    let ws: Vec<WEv> = toks.get(bar2 + 1..).unwrap_or(&[]).iter().map(|t| match &t[..1] { "a" => WEv::Accept(t[1..].parse().unwrap()), "p" => WEv::Pending, _ => WEv::Fail(t[1..].parse().unwrap()) }).collect();
     let fr = Frames::new(compressed, frames); let idx = RepIndex::new(&fr);
     let max_reads = fr.frames.len() + evs.len() + 8;
-    let (trace, _) = if imp == "B" { session_blocking(&fr, &idx, verify, &evs, &[], max_reads) } else { session_async(&runtime(), &fr, &idx, verify, &evs, &[], max_reads) };
+    let (trace, _) = if imp == "B" { session_blocking(&fr, &idx, verify, &evs, &ws, max_reads) } else { session_async(&runtime(), &fr, &idx, verify, &evs, &ws, max_reads) };
     match session_oracle(&fr, verify, &evs, &trace) {
         Some(w) => { println!("FAIL [{prop}] {w}\n trace: {}", trace.join(" ")); 1 },
         None => { println!("PASS trace: {}", trace.join(" ")); 0 },
@@ -184,6 +191,32 @@ pub fn run_c07(a: &Args) {
         }
         st.exhaustive.push(format!("all histories of length {depth} over a 12-frame alphabet (keep-alive, TINY_NONE reqi!=0, other TINY sub-types, other kinds, unknown, undecodable) ({} mode)", mode_tag(compressed)));
     }
+    // 4. the write half is not ready / accepts the reply piecemeal (blocking: Interrupted; tokio: Pending): the whole reply must
+    //    still be on the transport before its keep-alive is handed over (the model's write_all is not affected by readiness,
+    //    so these sessions are compared with the same model lines)
+    for compressed in [true, false] {
+        let ka = raw_frame(compressed, 3, 0, &[0]);
+        let other = raw_frame(compressed, 3, 7, &[4]);
+        let patterns: Vec<Vec<WEv>> = vec![
+            vec![WEv::Pending, WEv::Accept(9)], vec![WEv::Pending, WEv::Pending, WEv::Pending, WEv::Accept(9)],
+            vec![WEv::Accept(0), WEv::Pending, WEv::Accept(9)], vec![WEv::Accept(1), WEv::Pending, WEv::Pending, WEv::Accept(0), WEv::Accept(0)],
+            vec![WEv::Pending, WEv::Accept(0), WEv::Pending, WEv::Accept(0), WEv::Pending, WEv::Accept(0), WEv::Pending, WEv::Accept(0)],
+            vec![WEv::Accept(2), WEv::Pending, WEv::Accept(0)],
+        ];
+        for (pi, pat) in patterns.iter().enumerate() {
+            for frames in [vec![ka.clone(), other.clone()], vec![other.clone(), ka.clone(), ka.clone(), other.clone()], vec![ka.clone()]] {
+                let fr = Frames::new(compressed, frames); let idx = RepIndex::new(&fr);
+                let nka = fr.class.iter().filter(|c| **c == Class::Keep).count();
+                let ws: Vec<WEv> = (0..nka).flat_map(|_| pat.clone()).collect();
+                for split in [0usize, 1] {
+                    let stream = fr.stream();
+                    let evs: Vec<REv> = if split == 0 { vec![REv::Data(stream.clone()), REv::Eof] } else { stream.chunks(3).map(|c| REv::Data(c.to_vec())).chain([REv::Eof]).collect() };
+                    run.session_ws("C07", &fr, &idx, false, &evs, &ws, &mut st, &mut out, true);
+                    st.bump(&format!("write-half readiness pattern #{pi}"));
+                }
+            }
+        }
+    }
     // direct check of maybe_pong on typed packets: every kind's default value
     for p in crate::gen::kinds::default_packets() {
         st.evaluations += 1;
@@ -234,6 +267,17 @@ pub fn run_c09(a: &Args) {
             run.session("C09", &fr, &idx, true, &evs, &mut st, &mut out, true);
         }
     }
+    // the connections handed out by the builder's reachable connect paths carry the configured flag:
+    // loopback TCP / UDP peers answer the handshake with a version-8 and a version-9 packet
+    for udp in [false, true] { for blocking in [true, false] { for verify in [true, false] { for compressed in [true, false] {
+        st.evaluations += 1;
+        let id = format!("connect udp={udp} blocking={blocking} verify={verify} {}", mode_tag(compressed));
+        let got = connect_gate(udp, blocking, verify, compressed);
+        let want = if verify { vec!["BV8".to_string(), "V9".to_string()] } else { vec!["V8".to_string(), "V9".to_string()] };
+        if got != want { st.fail(format!("[C09] a connection built with verify_version({verify}) over {} ({}) returned {:?} for version packets 8 then 9, want {:?}", if udp { "udp" } else { "tcp" }, if blocking { "connect_blocking" } else { "connect_async" }, got, want), id); }
+        st.bump("connect paths exercised (tcp/udp x blocking/async x on/off x mode)");
+    } } } }
+    st.notes.push("the three relay arms of connect_blocking / connect_async dial isrelay.lfs.net and cannot run offline; reading builder.rs, the async relay arms (TCP and WebSocket) apply Builder::verify_version, the BLOCKING relay arm does not (observation, not claimed: it cannot be replayed here)".into());
     // typed: maybe_verify_version on every kind's default
     for p in crate::gen::kinds::default_packets() {
         st.evaluations += 1;
@@ -342,4 +386,37 @@ pub fn run_c06(a: &Args) {
     st.rule = "Framed::write on the real blocking and tokio connections over a scripted transport that accepts k bytes per call / reports not-ready (Interrupted for blocking, Pending for tokio) / fails: all acceptance patterns for short frames, every kind one byte per call, random sequences of 1..6 packets; non-trivial = a call accepting < 4 bytes occurs".into();
     st.sample("A C 2 | p a0 p a0 a1  -> transport receives 01030000".into());
     out.finish(&st);
+}
+
+
+/// connect through the real builder to a loopback peer that answers the ISI with VER(8) and VER(9); returns what two reads give
+fn connect_gate(udp: bool, blocking: bool, verify: bool, compressed: bool) -> Vec<String> {
+    use std::{io::{Read, Write}, net::{TcpListener, UdpSocket}, time::Duration};
+    let ver = crate::gen::kinds::default_packets().into_iter().find(|p| matches!(p, Packet::Ver(_))).and_then(|p| encode(compressed, &p)).unwrap_or_default();
+    if ver.is_empty() { return vec!["no-ver-frame".into()]; }
+    let mk = |v: u8| { let mut f = ver.clone(); let n = f.len(); f[n - 2] = v; f[4] = b'0'; f[5] = b'.'; f[6] = b'7'; f[7] = b'F'; f };
+    let (v8, v9) = (mk(8), mk(9));
+    let tok = |r: Result<Packet, insim::Error>| match r { Ok(Packet::Ver(v)) => format!("V{}", v.insimver), Ok(p) => format!("P?{:?}", p).chars().take(20).collect(), Err(insim::Error::IncompatibleVersion(v)) => format!("BV{v}"), Err(e) => format!("ERR {:?}", e).chars().take(40).collect() };
+    let rt = tokio::runtime::Builder::new_current_thread().enable_all().build().unwrap();
+    let r = guard(|| {
+        let mut b = insim::builder::Builder::new().verify_version(verify);
+        b = if compressed { b.compressed() } else { b.uncompressed() };
+        if udp {
+            let server = UdpSocket::bind("127.0.0.1:0").unwrap(); server.set_read_timeout(Some(Duration::from_millis(2000))).unwrap();
+            let saddr = server.local_addr().unwrap();
+            let h = std::thread::spawn(move || { let mut buf = [0u8; 2048]; if let Ok((_, from)) = server.recv_from(&mut buf) { let _ = server.send_to(&v8, from); let _ = server.send_to(&v9, from); } });
+            let bb = b.udp(saddr, None);
+            let out = if blocking { match bb.connect_blocking() { Ok(mut c) => vec![tok(c.read()), tok(c.read())], Err(e) => vec![format!("connect {:?}", e)] } }
+                      else { rt.block_on(async { match bb.connect_async().await { Ok(mut c) => vec![tok(c.read().await), tok(c.read().await)], Err(e) => vec![format!("connect {:?}", e)] } }) };
+            let _ = h.join(); out
+        } else {
+            let l = TcpListener::bind("127.0.0.1:0").unwrap(); let addr = l.local_addr().unwrap();
+            let h = std::thread::spawn(move || { if let Ok((mut s, _)) = l.accept() { let _ = s.set_read_timeout(Some(Duration::from_millis(2000))); let mut buf = [0u8; 44]; let _ = s.read_exact(&mut buf); let _ = s.write_all(&v8); let _ = s.write_all(&v9); std::thread::sleep(Duration::from_millis(300)); } });
+            let bb = b.tcp(addr);
+            let out = if blocking { match bb.connect_blocking() { Ok(mut c) => vec![tok(c.read()), tok(c.read())], Err(e) => vec![format!("connect {:?}", e)] } }
+                      else { rt.block_on(async { match bb.connect_async().await { Ok(mut c) => vec![tok(c.read().await), tok(c.read().await)], Err(e) => vec![format!("connect {:?}", e)] } }) };
+            let _ = h.join(); out
+        }
+    });
+    r.unwrap_or(vec!["PANIC".into()])
 }
